@@ -500,7 +500,18 @@ def fam_selfshadow(tier):
                 yield ("selfshadow %s in %s of %s" % (cn, block, on), prog(body))
 
 
-FAMILIES = [fam_binop, fam_unop, fam_slots, fam_builtins, fam_scope, fam_consts, fam_literals, fam_globals, fam_wellformed, fam_samenames, fam_structperm, fam_nestctl, fam_codesize, fam_selfshadow]
+def fam_returnshape(tier):
+    """functions whose body may or may not return on every path (the shapes of C05's missing-return family and their
+    well-formed controls): whatever the checker accepts must run on both back ends"""
+    from . import c05
+    for desc, body in c05.MISSING_RETURN + c05.RETURNS_OK:
+        src = (c05.CTX_HEAD + "fn noop() -> void { (println 0) }\nshadow noop { assert true }\n"
+               "fn g(a: int) -> int {\n" + body + "}\nshadow g { assert true }\n"
+               "fn main() -> int {\n    (println (+ (g 1) 1))\n    (println (+ (g -1) 1))\n    (println \"ran\")\n    return 0\n}\nshadow main { assert true }\n")
+        yield ("returnshape " + desc, src)
+
+
+FAMILIES = [fam_binop, fam_unop, fam_slots, fam_builtins, fam_scope, fam_consts, fam_literals, fam_globals, fam_wellformed, fam_samenames, fam_structperm, fam_nestctl, fam_codesize, fam_selfshadow, fam_returnshape]
 
 # ------------------------------------------------------------------------------------------ running
 _ST = {}
